@@ -78,11 +78,10 @@ def probeOf : String → Except String Probe
 /-- which branch of the model an op takes in state `s` (coverage tags for the evidence):
     `cl` is the clone record the decision is taken on (tracking ref already updated). -/
 def tagIntegrate (P : Probe) (s : State) (cl : Clone) : List String :=
-  let stTag := match refSt cl.loc cl.locSt, refSt cl.trk cl.trkSt with
-    | .packed, .loose => ["probe:loc-packed", "probe:loc-packed-trk-loose"]
-    | .packed, _ => ["probe:loc-packed"]
-    | _, .packed => ["probe:trk-packed"]
-    | _, _ => []
+  let lp := refSt cl.loc cl.locSt == .packed
+  let stTag := (if lp then ["probe:loc-packed"] else []) ++
+    (if refSt cl.trk cl.trkSt == .packed then ["probe:trk-packed"] else []) ++
+    (if lp && refSt cl.trk cl.trkSt == .loose then ["probe:loc-packed-trk-loose"] else [])
   let br :=
     if !P (refSt cl.trk cl.trkSt) then (if cl.trk.isSome then "skip-EXISTING-TRK" else "notrk")
     else if !P (refSt cl.loc cl.locSt) then (if cl.loc.isSome then "copy-OVER-EXISTING" else "copy")
